@@ -554,8 +554,15 @@ func (bs *Client) receiveBlocksFrom(ctx context.Context, from peer.ID, blks []bl
 	combined = append(combined, dontHaves...)
 	bs.pm.ResponseReceived(from, combined)
 
-	// Send all block keys (including duplicates) to any sessions that want them for accounting purpose.
-	bs.sm.ReceiveFrom(ctx, from, allKs, haves, dontHaves)
+	// Tell the sessions only about the blocks that are published below. A
+	// session that registered its interest after SplitWantedUnwanted must not
+	// count a block as received that its subscribers are never going to get.
+	wantedKs := make([]cid.Cid, 0, len(wanted))
+	for _, b := range wanted {
+		wantedKs = append(wantedKs, b.Cid())
+	}
+	// Send the wanted block keys (including duplicates) to any sessions that want them for accounting purpose.
+	bs.sm.ReceiveFrom(ctx, from, wantedKs, haves, dontHaves)
 
 	if bs.blockReceivedNotifier != nil {
 		bs.blockReceivedNotifier.ReceivedBlocks(from, wanted)
